@@ -23,8 +23,8 @@ CHECKS = {
              "what": "grid-only, no repeats, <= max_evals + 3^d, sorted steps, first = minimum, steps = evaluations"},
             {"name": "nonfinite", "harness": "c13_tuner", "args": ["--stage", "nonfinite"], "share": 0.1,
              "what": "a NaN/+inf/-inf answer at every evaluation position must make optimize() throw"},
-            {"name": "tune-sched", "harness": "c13_tune_sched", "crash_is_violation": True, "args": ["--budget", "1"], "share": 0.4,
-             "args_thorough": ["--maxfolds", "3", "--maxW", "3"],
+            {"name": "tune-sched", "harness": "c13_tune_sched", "crash_is_violation": True, "args_quick": ["--budget", "2"], "share": 0.4,
+             "args_thorough": ["--budget", "2", "--maxfolds", "3", "--maxW", "3"],
              "what": "ml::tune with a W-worker pool: callback exactly once per (trial, fold) with the fold's indices, "
                      "statistics/extra stored under the right (trial, fold), optimum trial, schedule-independent result"},
         ],
